@@ -94,7 +94,20 @@ pub fn api_contract_db_named(buf: *mut u8, cap: usize, region_len: usize, name: 
     crate::regions::verif_regions::add(regions_of(&db), name, &r, true);
     anydb_verif_platform::sync::set_cut(db.0.layout.verif_id());
     anydb_verif_platform::sync::set_cut_size(core::mem::size_of::<Layout>());
+    unsafe { CONTRACT_REGION = Some(r.clone()) };
     (db, r)
+}
+
+static mut CONTRACT_REGION: Option<Region> = None;
+/// Stub for `Database::create_region_if_needed` in import harnesses: "the vector's region exists"
+/// (possibly with length 0); name resolution is not part of what those harnesses decide.
+pub fn create_region_if_needed_stub(_db: &Database, _id: &str) -> Result<Region> {
+    #[allow(static_mut_refs)]
+    Ok(unsafe { CONTRACT_REGION.as_ref().unwrap().clone() })
+}
+/// Stub for `Database::get_region` in import harnesses: no auxiliary (holes) region exists.
+pub fn get_region_none_stub(_db: &Database, _id: &str) -> Option<Region> {
+    None
 }
 
 /// Stub for `Database::remove_region_if_exists` in import harnesses: records the request as a ghost
